@@ -153,6 +153,7 @@ def asift(pred, items):
     """Sifts a list of items into those that meet the predicate and those that don't."""
     yes = []
     no = []
+    items = list(items)  # may be a one-shot iterator; we go over it twice
     results = yield [pred.asynq(item) for item in items]
     for item, yesno in zip(items, results):
         if yesno:
